@@ -34,9 +34,20 @@ def _apply(dst, edits):
         p = os.path.join(dst, rel)
         with open(p) as f:
             s = f.read()
-        if old not in s:
-            return False
-        s = s.replace(old, new, 1)
+        if old == '__UNPARSE__':
+            # whole-file normalisation: comments dropped, quoting / line breaks / parentheses re-generated
+            import ast as _ast
+            s = _ast.unparse(_ast.parse(s)) + '\n'
+        elif old.startswith('re:'):
+            import re as _re
+            s2 = _re.sub(old[3:], new, s)
+            if s2 == s:
+                return False
+            s = s2
+        else:
+            if old not in s:
+                return False
+            s = s.replace(old, new, 1)
         with open(p, 'w') as f:
             f.write(s)
     return True
